@@ -5,6 +5,11 @@ V = os.path.dirname(os.path.dirname(os.path.abspath(__file__)))
 
 # id -> dict(level, engine, technique, text, note, design)
 CLAIMED = {
+ "C17": dict(level="exploration", engine="lib-inproc",
+   technique="reference-model monitor: token-list rewriting model of XCU 2.3.1 produces the hand-substituted text; the real parser with the alias table (look-up-counting Glossary, online look-up bound, CPU-time watchdog) must give the trees the same parser gives, without aliases, for that text",
+   text="All alias tables a,b,c -> 16^3 (quick) / 32^3 (thorough) value combinations {other name, name+blank, tab-ending, inner alias word with trailing blank, self, two words, empty, blank only, reserved words, operators, redirection, assignment, quoted forms, embedded newline}, a global alias in every third table, x 36 templates with alias names in every slot + 40/120 random fillings (command, argument, after assignment/redirection, after ! ( { if then else elif while until do, for words, case subject/pattern/body, after line continuation and newline) + 20/60 token-soup lines.",
+   note="Trusted: models/alias.rs (written from the standard's text; global aliases per the yash documentation). Lines keep tokens blank-separated; alias names are never reserved words. When both sides end in a syntax error, the trees before it and the error kind are compared.",
+   design="5/C17"),
  "C07": dict(level="exploration", engine="vsh-virtual",
    technique="identity monitor: yash_quote output embedded in scripts run by the complete shell (probe receives the field); state-snapshot monitor: every listing evaluated by a fresh shell and the Env/kernel snapshot facet it covers compared with the original",
    text="A: every string of length <= 3 (quick) / 4 over 31 characters (all shell-special characters, quotes, newline, tab, NBSP, U+3000, a, /) and 2*10^4 / 6*10^5 random strings to length 40, as command argument, assignment value and declaration-utility operand, with files that unprotected patterns would match and HOME set. B: 3000 / 120000 random states (scalars, arrays, attributes, odd variable/alias/function names, grammar-generated function bodies, read-only functions, 11 options, traps with arbitrary action text, umask) x 11 listings (alias, export -p, readonly -p, typeset -p, typeset -fp, set, set +o, trap, trap -p, umask, umask -S).",
